@@ -19,6 +19,10 @@ pub enum Plan {
     /// Position bits drawn from `pos` (by id), tag from `tags`; below `layer` bits the position
     /// is exactly the chosen one, above that the bits are mixed so that growth separates keys.
     PosTag { pos: Vec<u32>, tags: Vec<u8>, layer: u8, seed: u64 },
+    /// Position = (id / 1000) * stride: all ids of one band of 1000 share a home position, bands are
+    /// `stride` buckets apart. Bands larger than a group overflow into the next band's home group, so
+    /// groups fill up with displaced elements.
+    Bands { stride: u32 },
     /// Byzantine: a fresh pseudo-random value on every call.
     ByzFresh,
     /// Byzantine: lawful `Mixed` answer, but every `period`-th call returns something else.
@@ -39,6 +43,7 @@ impl Plan {
             Plan::Const0 => 0,
             Plan::ConstMax => u64::MAX,
             Plan::Seq => ((splitmix(id as u64) & 0x7f) << 57) | id as u64,
+            Plan::Bands { stride } => ((splitmix(id as u64) & 0x7f) << 57) | ((id as u64 / 1000) * (*stride as u64)),
             Plan::SeqTag { stride, offset, tags } => {
                 let t = if tags.is_empty() { (splitmix(id as u64) & 0x7f) as u8 } else { tags[id as usize % tags.len()] & 0x7f };
                 ((t as u64) << 57) | ((id as u64) * (*stride as u64) + *offset as u64)
@@ -79,7 +84,8 @@ impl Plan {
 
     /// Draws a random lawful plan (swarm style).
     pub fn random(rng: &mut Rng) -> Plan {
-        match rng.below(12) {
+        match rng.below(14) {
+            12 | 13 => Plan::Bands { stride: *rng.pick(&[16u32, 16, 8, 4, 32]) },
             0 | 1 | 2 => Plan::Mixed(rng.next()),
             3 => Plan::Const0,
             4 => Plan::ConstMax,
